@@ -3,6 +3,7 @@ package tr
 
 import (
 	"bufio"
+	"bytes"
 	"encoding/json"
 	"os"
 	"strconv"
@@ -30,6 +31,8 @@ func (w *W) Emit(m interface{}) {
 	if err != nil {
 		panic(err)
 	}
+	// TLC's JSON reader has no null: nil slices / maps are written as empty arrays
+	b = bytes.ReplaceAll(b, []byte(":null"), []byte(":[]"))
 	w.w.Write(b)
 	w.w.WriteByte('\n')
 	w.N++
